@@ -176,7 +176,7 @@ Definition ipoint_eqb (a b : ipoint) : bool :=
 Fixpoint find_inj (p : ipoint) (k : nat) (l : list (ipoint * nat * list act)) : list act :=
   match l with
   | [] => []
-  | (p', k', a) :: t => if ipoint_eqb p p' && Nat.eqb k k' then a else find_inj p k t
+  | (p', k', a) :: t => if ipoint_eqb p p' && Nat.eqb k k' then a ++ find_inj p k t else find_inj p k t
   end.
 
 Definition run_inj (p : ipoint) (k : nat) (w : world) : world :=
